@@ -159,7 +159,7 @@ Proof.
   destruct (consume true fts (set_stack w1 [cp]) cp obj mode) as [[w2 t2]|] eqn:E2; [|discriminate].
   cbn [bind fst snd]. intros [= <- <-].
   assert (st_ok fts (set_stack w1 [cp]) cp) as Hst by (split; [exact H1'|left; reflexivity]).
-  destruct (consume_pure fts _ _ _ _ _ _ Hst Hobj E2) as [-> G].
+  destruct (consume_pure fts _ _ _ _ _ _ Hst Hobj E2) as (-> & G & _).
   exists w1, cp, w2. split; [reflexivity|]. split; [exact H1|]. split; [|split; [exact G|reflexivity]].
   eapply inv_moves; [exact H1'|apply G].
 Qed.
